@@ -477,7 +477,8 @@ where
 
                 for predecessor in &self.predecessors[&vertex_index] {
                     let mut runner = *predecessor;
-                    while runner != idom {
+                    // predecessors outside the flow graph rooted at start_index do not count
+                    while runner != idom && (runner == start_index || idoms.contains_key(&runner)) {
                         df.get_mut(&runner).unwrap().insert(vertex_index);
                         if !idoms.contains_key(&runner) {
                             break;
@@ -492,7 +493,8 @@ where
         // This is necessary because we don't have a dedicated entry node.
         for predecessor in &self.predecessors[&start_index] {
             let mut runner = *predecessor;
-            loop {
+            // predecessors outside the flow graph rooted at start_index do not count
+            while runner == start_index || idoms.contains_key(&runner) {
                 df.get_mut(&runner).unwrap().insert(start_index);
                 if !idoms.contains_key(&runner) {
                     break;
